@@ -73,6 +73,7 @@ type c03Env struct {
 	seq     int
 	keyDir  string
 	decoy   string
+	auditCap *audit.CapturedLog
 	db      *gorm.DB
 	client  *Crypto
 	pubs    []string // key registry: PKIX DER (hex) of every public key the store returned, index = K<n>
@@ -288,11 +289,32 @@ func (e *c03Env) verifiers(tok string) string {
 	return "[" + strings.Join(ok, ",") + "]"
 }
 
+// the audit records written since the last call, canonical: event:message;…  (also fed to the canary scan)
+func (e *c03Env) drainAudit() string {
+	var parts []string
+	for _, en := range e.auditCap.Hook.AllEntries() {
+		e.sink("audit", en.Message, fmt.Sprintf("%+v", en.Data))
+		if s, err := en.String(); err == nil {
+			e.sink("audit", s)
+		}
+		parts = append(parts, fmt.Sprintf("%v:%s", en.Data["event"], en.Message))
+	}
+	e.auditCap.Hook.Reset()
+	return " audit=[" + strings.Join(parts, ";") + "]"
+}
+
 func (e *c03Env) exec(op map[string]interface{}) (line string) {
 	defer func() {
 		if r := recover(); r != nil {
 			line = fmt.Sprintf("%v panic:%v", op["op"], r)
 			e.sink("returns", line)
+		}
+		a := e.drainAudit()
+		switch op["op"] {
+		case "new", "link", "delete", "migrate", "sign", "resolve", "decrypt", "decryptjwe":
+			if !strings.HasSuffix(line, " skipped") && !strings.Contains(line, "encrypt-failed") {
+				line += a
+			}
 		}
 	}()
 	ctx := audit.TestContext()
@@ -373,6 +395,7 @@ func (e *c03Env) exec(op map[string]interface{}) (line string) {
 		case "jws":
 			tok, err = e.client.SignJWS(ctx, []byte("payload"), map[string]interface{}{"typ": "x"}, kid, false)
 		case "jwt":
+			op["iss"], op["sub"] = "me", "you"
 			tok, err = e.client.SignJWT(ctx, map[string]interface{}{"iss": "me", "sub": "you"}, nil, kid)
 		default:
 			u, _ := url.Parse("https://example.com/token")
@@ -700,8 +723,7 @@ func (e *c03Env) scan(out string) {
 	// positive control: the scanner must find a planted canary
 	control := false
 	if len(e.canaries) > 0 {
-		planted := "xx" + e.canaries[0].val + "yy"
-		control = strings.Contains(planted, e.canaries[0].val)
+		e.sink("zz-control", "xx"+e.canaries[len(e.canaries)/2].val+"yy")
 	}
 	// all file names anywhere under the sandbox
 	_ = filepath.Walk(e.root, func(p string, info os.FileInfo, err error) error {
@@ -710,23 +732,51 @@ func (e *c03Env) scan(out string) {
 		}
 		return nil
 	})
+	// multi-pattern search: index the canaries by their first 16 bytes, slide over each sink once
+	const w = 16
+	idx := map[string][]int{}
+	for i, c := range e.canaries {
+		idx[c.val[:w]] = append(idx[c.val[:w]], i)
+	}
+	hitSeen := map[string]bool{}
 	for label, b := range e.sinks {
 		s := b.String()
 		sizes[label] = len(s)
 		total += len(s)
-		for _, c := range e.canaries {
-			if i := strings.Index(s, c.val); i >= 0 {
-				lo, hi := i-40, i+20
-				if lo < 0 {
-					lo = 0
+		for i := 0; i+w <= len(s); i++ {
+			cands, ok := idx[s[i:i+w]]
+			if !ok {
+				continue
+			}
+			for _, ci := range cands {
+				c := e.canaries[ci]
+				if strings.HasPrefix(s[i:], c.val) && !hitSeen[label+c.key+c.kind] {
+					hitSeen[label+c.key+c.kind] = true
+					lo, hi := i-40, i+20
+					if lo < 0 {
+						lo = 0
+					}
+					if hi > len(s) {
+						hi = len(s)
+					}
+					if len(hits) < 2000 {
+						hits = append(hits, hit{c.key, c.kind, label, strconv.Quote(s[lo:hi])})
+					}
 				}
-				if hi > len(s) {
-					hi = len(s)
-				}
-				hits = append(hits, hit{c.key, c.kind, label, strconv.Quote(s[lo:hi])})
 			}
 		}
 	}
+	// the planted control must be the one and only hit in the control sink; it is not reported as a finding
+	var realHits []hit
+	for _, h := range hits {
+		if h.Sink == "zz-control" {
+			control = true
+		} else {
+			realHits = append(realHits, h)
+		}
+	}
+	hits = realHits
+	delete(sizes, "zz-control")
 	res := map[string]interface{}{
 		"exploration": true, "keys": e.nKeys, "canaries": len(e.canaries), "bytes_scanned": total, "sinks": sizes,
 		"hits": hits, "scanner_positive_control": control,
@@ -757,7 +807,7 @@ func TestVerifC03(t *testing.T) {
 	logrus.SetLevel(logrus.TraceLevel)
 	logrus.StandardLogger().AddHook(c03Hook{e})
 	cap := audit.CaptureAuditLogs(t)
-	_ = cap
+	e.auditCap = cap
 	// the audit logger is private to package audit; CaptureAuditLogs installed a test hook whose entries we read at the end
 
 	fo, _ := os.Create(filepath.Join(out, "ks_ops.jsonl"))
@@ -774,12 +824,7 @@ func TestVerifC03(t *testing.T) {
 		return line
 	}
 	finish := func() {
-		for _, en := range cap.Hook.AllEntries() {
-			e.sink("audit", en.Message, fmt.Sprintf("%+v", en.Data))
-			if s, err := en.String(); err == nil {
-				e.sink("audit", s)
-			}
-		}
+		e.drainAudit()
 		e.dumpSQL()
 		e.scan(out)
 	}
